@@ -180,6 +180,12 @@ func (mr *MigrationRunner) runMigration(ctx context.Context, migrationIndex uint
 		return ctx.Err()
 	}
 
+	if err != nil {
+		// The migration was interrupted (err is the context's error) and has nothing to
+		// resume from: it did not complete, so it must not be recorded as applied.
+		return err
+	}
+
 	mr.metadata.CurrentVersion.Set(migrationIndex)
 	txn := mr.database.NewBatch()
 	if err := WriteSchemaMetadata(txn, mr.metadata); err != nil {
